@@ -56,6 +56,10 @@ def _all_parts(mod, prop, tier):
     op = optimised.part(prop)
     if op is not None:
         parts.append(op)
+    from mc.props import poisoned
+    pp2 = poisoned.part(prop)
+    if pp2 is not None:
+        parts.append(pp2)
     from mc.props import subclass
     sp = subclass.part(prop)
     if sp is not None:
@@ -74,6 +78,9 @@ def main(argv):
     prop = argv[0].upper()
     os.chdir(ROOT)
     src = engine.load_praatio()
+    if os.environ.get("VERIF_PRELUDE"):      # the process gets a past before anything is checked (mc/props/prelude.py); workers are forked later
+        from mc.props import prelude
+        prelude.run()
     mod = importlib.import_module("mc.props." + prop.lower())
     if len(argv) >= 3 and argv[1] == "--replay":
         return replay(prop, mod, argv[2])
